@@ -131,3 +131,47 @@ func tool(name string, in []byte, args ...string) (out []byte, ok bool, err erro
 	}
 	return o, true, nil
 }
+
+// encLzwLiteral mirrors the Lean reference encoder StdSpec.Lzw.encode (Model/StdSpecLzw.lean): CLEAR, one
+// literal code per byte (the decoder still learns, so the width grows as in real streams), a CLEAR before the
+// table fills, END.
+func encLzwLiteral(p []byte, lw int) []byte {
+	var out []byte
+	var acc uint64
+	nbits := uint(0)
+	push := func(v, n int) {
+		acc |= uint64(v) << nbits
+		nbits += uint(n)
+		for nbits >= 8 {
+			out = append(out, byte(acc))
+			acc >>= 8
+			nbits -= 8
+		}
+	}
+	bump := func(next, width int) int {
+		if width < 12 && next == 1<<uint(width) {
+			return width + 1
+		}
+		return width
+	}
+	clear := 1 << uint(lw)
+	push(clear, lw+1)
+	size, width, hasPrev := clear+2, lw+1, false
+	for _, b := range p {
+		if size >= 4095 {
+			push(clear, width)
+			size, width, hasPrev = clear+2, lw+1, false
+		}
+		push(int(b)%clear, width)
+		if hasPrev {
+			size++
+			width = bump(size, width)
+		}
+		hasPrev = true
+	}
+	push(clear+1, width)
+	if nbits > 0 {
+		out = append(out, byte(acc))
+	}
+	return out
+}
